@@ -95,6 +95,14 @@ mod x {
         pub tag2: String,
         #[serde(rename = "a-bc", default = "super::ok_default")]
         pub ab_c: String,
+        #[serde(rename = "xyZ", default = "super::ok_default")]
+        pub xy_z: String,
+        #[serde(rename = "xYz", default = "super::ok_default")]
+        pub x_yz: String,
+        #[serde(rename = "NEST", default)]
+        pub nest: Option<super::p::Inner>,
+        #[serde(rename = "n-est2", default)]
+        pub ne_st2: Option<super::p::Inner>,
     }
     #[derive(Deserialize, Debug, Validate, PartialEq)]
     pub struct GOuter {
@@ -118,6 +126,21 @@ mod x {
         #[garde(length(min = 1))]
         #[serde(rename = "a-bc", default = "super::ok_default")]
         pub ab_c: String,
+        // two fields that only the token-sequence pass tells apart (`xy_z` = xy + z = `xyZ`, `x_yz` = x + yz = `xYz`; with the
+        // separators dropped both are `xyz`)
+        #[garde(length(min = 1))]
+        #[serde(rename = "xyZ", default = "super::ok_default")]
+        pub xy_z: String,
+        #[garde(length(min = 1))]
+        #[serde(rename = "xYz", default = "super::ok_default")]
+        pub x_yz: String,
+        // the same two bridges with a struct below them, so that the failed field's path has an inner renamed segment
+        #[garde(dive)]
+        #[serde(rename = "NEST", default)]
+        pub nest: Option<super::g::Inner>,
+        #[garde(dive)]
+        #[serde(rename = "n-est2", default)]
+        pub ne_st2: Option<super::g::Inner>,
     }
 }
 
@@ -439,10 +462,16 @@ fn random_doc(rng: &mut Rng) -> Vec<AEv> {
         }
     }
     if EXTRAS.with(|e| e.get()) {
-        for key in ["TAG2", "a-bc"] {
+        for key in ["TAG2", "a-bc", "xyZ", "xYz"] {
             if rng.chance(2, 3) {
                 out.push(sc(key));
                 out.push(if rng.chance(1, 2) { AEv::new("S", 0, "", "d", "") } else { sc("ok") });
+            }
+        }
+        for key in ["NEST", "n-est2"] {
+            if rng.chance(1, 2) {
+                out.push(sc(key));
+                inner(rng, &mut out, &mut map_anchors, &mut next_anchor);
             }
         }
         // a map-typed field whose keys may repeat (read under LastWins)
